@@ -70,6 +70,13 @@ Next ==
                /\ configs' = { Drop(cfg, e.id) : cfg \in (IF ok # {} THEN ok ELSE { c \in C : e.id \in Linearized(c) }) }
                /\ calls' = [i \in (DOMAIN calls) \ {e.id} |-> calls[i]]
                /\ UNCHANGED nslots
+       [] e.op = "engine-tables" ->
+            \* every table an engine handed to its searches, read when all searches have gone: the fill
+            \* count is the number of occupied slots (TT!UsedExact at quiescence)
+            LET f == Chk("c17.used-range", \A i \in 1..Len(e.tables) : e.tables[i].frac1000 >= 0 /\ e.tables[i].frac1000 <= 1000)
+                     \cup Chk("c17.used-count-engine-table", \A i \in 1..Len(e.tables) : e.tables[i].counted = e.tables[i].occupied)
+            IN /\ (f # {} => PrintT("FAIL|" \o ToString(l) \o "|" \o ToString(f)))
+               /\ UNCHANGED <<nslots, calls, configs>>
        [] e.op = "used" ->
             LET f == Chk("harness.pending-at-quiescence", Pending = {})
                      \cup Chk("c17.used-range", e.frac1000 >= 0 /\ e.frac1000 <= 1000)
